@@ -346,6 +346,13 @@ class PythonTemplater(RawTemplater):
                         "variables? https://docs.sqlfluff.com/en/stable/"
                         "perma/variables.html".format(err)
                     )
+            except (ValueError, IndexError) as err:
+                # Malformed format strings (e.g. a single "{") raise ValueError
+                # and positional fields (e.g. "{}" or "{0}") raise IndexError.
+                raise SQLTemplaterError(
+                    "Failure in Python templating: {}. Is this a valid python "
+                    "format string?".format(err)
+                )
             return rendered_str
 
         raw_sliced, sliced_file, new_str = self.slice_file(
